@@ -276,3 +276,191 @@ Proof.
     apply (bars_notes_ok g c nt i Hg Hi cols Hb 0 x); [apply Z.divide_0_r|exact Hx].
 Qed.
 
+(* ================================================================ Target 3: any partition of the bars into call groups *)
+(* a partition: the groups in order, each a run of bars; the piece is their concatenation *)
+Definition parts_ok (g : Z) (c : cfg) (nt : nat) (parts : list (list bar_col)) : bool :=
+  negb (match parts with [] => true | _ => false end) && forallb (bars_group_ok g c nt) parts.
+Definition part_groups (nt : nat) (parts : list (list bar_col)) : list group :=
+  map (fun cols => (sigs_of cols, join nt cols)) parts.
+
+Lemma part_groups_ok g c nt parts :
+  valid_cfg g c = true -> Z.of_nat nt = c_ntracks c -> forallb (bars_group_ok g c nt) parts = true ->
+  groups_ok g c (part_groups nt parts) = true.
+Proof.
+  intros Hc Hnt. induction parts as [|cols parts IH]; intros H; [reflexivity|]. cbn [forallb] in H.
+  apply andb_prop in H. destruct H as [H1 H2]. cbn [part_groups map groups_ok forallb fst snd].
+  rewrite (bars_group g c nt cols Hc Hnt H1). apply (IH H2).
+Qed.
+
+Lemma part_calls nt parts : group_calls (part_groups nt parts) = map (join nt) parts.
+Proof. unfold group_calls, part_groups. rewrite map_map. reflexivity. Qed.
+
+Lemma last_app_ne {A} (a b : list A) d : b <> [] -> last (a ++ b) d = last b d.
+Proof.
+  intros Hb. induction a as [|x a IH]; [reflexivity|]. cbn [app]. destruct (a ++ b) eqn:E.
+  - apply app_eq_nil in E. destruct E as [_ E]. congruence.
+  - rewrite <- E at 1. cbn [last]. rewrite E in *. exact IH.
+Qed.
+
+(* the whole piece is one (big) group *)
+Lemma whole_ok g c nt parts : parts_ok g c nt parts = true -> bars_group_ok g c nt (concat parts) = true.
+Proof.
+  unfold parts_ok. intros H. apply andb_prop in H. destruct H as [Hne H].
+  induction parts as [|cols parts IH]; [discriminate|]. clear Hne. cbn [forallb] in H. apply andb_prop in H. destruct H as [H1 H2].
+  destruct parts as [|cols' parts'].
+  - cbn [concat]. now rewrite app_nil_r.
+  - specialize (IH eq_refl H2). cbn [concat] in *.
+    unfold bars_group_ok in *. apply andb_prop in H1. destruct H1 as [H1 O1]. apply andb_prop in H1. destruct H1 as [N1 B1].
+    apply andb_prop in IH. destruct IH as [IH O2]. apply andb_prop in IH. destruct IH as [N2 B2].
+    assert (Hne2 : cols' ++ concat parts' <> []) by (destruct (cols' ++ concat parts'); [discriminate|discriminate]).
+    rewrite forallb_app, B1, B2, (last_app_ne cols _ dummy_bar Hne2), O2.
+    destruct cols; [discriminate|reflexivity].
+Qed.
+
+Section PieceNotes.
+  Variables (g : Z) (c : cfg) (nt : nat) (i : nat).
+  Hypothesis Hg : 0 < g.
+  Hypothesis Hi : (i < nt)%nat.
+
+  Lemma bars_notes_app a b : forall s,
+    bars_notes c i s (a ++ b) = bars_notes c i s a ++ bars_notes c i (s + bars_dur c (sigs_of a)) b.
+  Proof.
+    induction a as [|x a IH]; intros s; [cbn; now rewrite Z.add_0_r|].
+    cbn [app bars_notes sigs_of map bars_dur]. rewrite IH, <- app_assoc. fold (sigs_of a).
+    do 3 f_equal. unfold bc_cap. rewrite Z.add_assoc. reflexivity.
+  Qed.
+
+  (* whatever the partition, the glued notes of the groups are the notes of the bars *)
+  Lemma parts_notes parts : forallb (bars_group_ok g c nt) parts = true -> forall s,
+    Permutation (glued_notes i s (group_lens c (part_groups nt parts)) (group_notes_of i (part_groups nt parts)))
+                (bars_notes c i s (concat parts)).
+  Proof.
+    induction parts as [|cols parts IH]; intros H s; [constructor|]. cbn [forallb] in H. apply andb_prop in H.
+    destruct H as [H1 H2].
+    assert (Hb : forallb (bar_ok g c nt) cols = true).
+    { unfold bars_group_ok in H1. apply andb_prop in H1. destruct H1 as [H1 _]. now apply andb_prop in H1. }
+    cbn [part_groups map group_lens group_notes_of glued_notes fst snd concat]. rewrite (bars_notes_app cols _ s).
+    apply Permutation_app.
+    - rewrite (join_nth nt cols i Hi). eapply perm_trans; [apply Permutation_map, (track_notes_of g c nt i Hg Hi cols Hb)|].
+      rewrite (bars_notes_shift c nt i Hi). apply Permutation_refl.
+    - apply (IH H2).
+  Qed.
+End PieceNotes.
+
+Lemma all_sigs_parts nt parts : all_sigs (part_groups nt parts) = sigs_of (concat parts).
+Proof.
+  unfold all_sigs, part_groups, sigs_of. rewrite map_map. cbn [fst]. now rewrite concat_map.
+Qed.
+
+Lemma rel_split l : Permutation (filter rel l) (filter is_note l ++ filter is_cap l).
+Proof.
+  induction l as [|x l IH]; [constructor|]. cbn [filter]. unfold rel at 1.
+  destruct (is_note x) eqn:En.
+  - cbn [orb]. assert (is_cap x = false) as ->.
+    { unfold is_note, is_on, is_off, is_cap, mtype_eqb in *. destruct (m_type x); cbn in *; congruence. }
+    cbn [app]. now apply perm_skip.
+  - cbn [orb]. destruct (is_cap x); [|exact IH]. eapply perm_trans; [apply perm_skip, IH|]. apply Permutation_middle.
+Qed.
+
+(* Target 3.  A piece given bar by bar (signature and content of every track per bar), ANY partition `parts` of its
+   bar sequence into consecutive call groups: the threaded calls on the groups (each group handed over as the
+   concatenation of its bars' lists, one list per track) and the single call on the whole piece both succeed, both end
+   on the bar line at the end of the piece, both streams detokenise to one sequence per track, and in both the note
+   messages of track i are exactly the notes of the bars of track i -- pitch, onset tick (bar start + offset in the
+   bar), offset tick, velocity replaced by its bin value -- and the INTERNAL caps are exactly the ends of all bars.
+   Hence the two detokenisations hold the same notes on the same bar grid. *)
+Theorem C03_piece g c nt parts :
+  valid_cfg g c = true -> Z.of_nat nt = c_ntracks c -> parts_ok g c nt parts = true ->
+  exists toks1 st1 seqs1 toks2 st2 seqs2,
+    tokenise_many c (tstate0 c) (map (join nt) parts) = Ok (toks1, st1) /\ detokenise c toks1 = Ok seqs1 /\
+    tokenise c (tstate0 c) (join nt (concat parts)) = Ok (toks2, st2) /\ detokenise c toks2 = Ok seqs2 /\
+    length seqs1 = nt /\ length seqs2 = nt /\
+    t_time st1 = bars_dur c (sigs_of (concat parts)) /\ t_time st2 = bars_dur c (sigs_of (concat parts)) /\
+    t_tbar st1 = 0 /\ t_tbar st2 = 0 /\
+    forall i, (i < nt)%nat ->
+      Permutation (filter is_note (nth i seqs1 [])) (flat_map (note_msgs c) (bars_notes c i 0 (concat parts))) /\
+      Permutation (filter is_note (nth i seqs2 [])) (flat_map (note_msgs c) (bars_notes c i 0 (concat parts))) /\
+      Permutation (filter is_cap (nth i seqs1 [])) (caps_msgs (bar_ends c 0 (sigs_of (concat parts)))) /\
+      Permutation (filter is_cap (nth i seqs2 [])) (caps_msgs (bar_ends c 0 (sigs_of (concat parts)))) /\
+      Permutation (filter rel (nth i seqs1 [])) (filter rel (nth i seqs2 [])).
+Proof.
+  intros Hc Hnt Hp. destruct (valid_cfg_parts g c Hc) as (_ & Hg & _).
+  pose proof Hp as Hp'. unfold parts_ok in Hp'. apply andb_prop in Hp'. destruct Hp' as [_ Hparts].
+  pose proof (part_groups_ok g c nt parts Hc Hnt Hparts) as Hok1.
+  pose proof (whole_ok g c nt parts Hp) as Hw.
+  assert (Hok2 : groups_ok g c (part_groups nt [concat parts]) = true).
+  { apply part_groups_ok; [exact Hc|exact Hnt|]. cbn [forallb]. now rewrite Hw. }
+  destruct (C03_groups_roundtrip g c _ Hc Hok1) as (toks1 & st1 & seqs1 & A1 & _ & A2 & A2' & A3 & A4 & A5).
+  destruct (C03_groups_roundtrip g c _ Hc Hok2) as (toks2 & st2 & seqs2 & B1 & _ & B2 & B2' & B3 & B4 & B5).
+  rewrite all_sigs_parts in A2, B2, A5, B5. cbn [concat] in B2, B5. rewrite app_nil_r in B2, B5.
+  exists toks1, st1, seqs1, toks2, st2, seqs2.
+  rewrite part_calls in A1, B1. split; [exact A1|]. split; [exact A3|].
+  split.
+  { cbn [map] in B1. rewrite C19_tokenise.tokenise_many_one in B1.
+    destruct (tokenise c (tstate0 c) (join nt (concat parts))) as [[t s]|]; cbn [rbind fst snd] in B1; [exact B1|discriminate]. }
+  split; [exact B3|]. split; [lia|]. split; [lia|]. split; [exact A2|]. split; [exact B2|]. split; [exact A2'|].
+  split; [exact B2'|]. intros i Hi.
+  destruct (A5 i ltac:(lia)) as (_ & AN & AC). destruct (B5 i ltac:(lia)) as (_ & BN & BC).
+  assert (P1 : Permutation (filter is_note (nth i seqs1 [])) (flat_map (note_msgs c) (bars_notes c i 0 (concat parts)))).
+  { eapply perm_trans; [exact AN|]. apply Permutation_flat_map. apply (parts_notes g c nt i Hg Hi parts Hparts 0). }
+  assert (P2 : Permutation (filter is_note (nth i seqs2 [])) (flat_map (note_msgs c) (bars_notes c i 0 (concat parts)))).
+  { eapply perm_trans; [exact BN|]. apply Permutation_flat_map.
+    pose proof (parts_notes g c nt i Hg Hi [concat parts]) as Q. cbn [forallb concat] in Q. rewrite app_nil_r in Q.
+    apply Q. now rewrite Hw. }
+  split; [exact P1|]. split; [exact P2|]. split; [exact AC|]. split; [exact BC|].
+  eapply perm_trans; [apply rel_split|]. eapply perm_trans; [|apply Permutation_sym, rel_split].
+  apply Permutation_app.
+  - eapply perm_trans; [exact P1|]. now apply Permutation_sym.
+  - eapply perm_trans; [exact AC|]. now apply Permutation_sym.
+Qed.
+
+(* ================================================================ non-vacuity *)
+(* three bars (4/4, 4/4, 3/4), two tracks; bar 2 is empty on track 0; a time-signature change at bar 3 *)
+Definition xw (t : Z) : msg := mk_wait 0 t false.
+Definition xon (p v : Z) : msg := mk_on 0 p v 0 false.
+Definition xoff (p : Z) : msg := mk_off 0 p 0 false.
+Definition ex_b1 : bar_col := (4, 4, [[xon 60 100; xw 24; xoff 60; xw 72]; [xw 48; xon 61 50; xw 36; xoff 61; xw 12]]).
+Definition ex_b2 : bar_col := (4, 4, [[xw 96]; [xon 62 80; xw 12; xoff 62; xw 84]]).
+Definition ex_b3 : bar_col := (3, 4, [[xw 24; xon 60 100; xw 36; xoff 60; xw 12]; [xw 72]]).
+
+Example ex_parts_ok :
+  valid_cfg 2 cfg_ex = true /\ Z.of_nat 2 = c_ntracks cfg_ex /\
+  parts_ok 2 cfg_ex 2 [[ex_b1]; [ex_b2; ex_b3]] = true /\ parts_ok 2 cfg_ex 2 [[ex_b1; ex_b2]; [ex_b3]] = true /\
+  parts_ok 2 cfg_ex 2 [[ex_b1]; [ex_b2]; [ex_b3]] = true /\ parts_ok 2 cfg_ex 2 [[ex_b1; ex_b2; ex_b3]] = true.
+Proof. vm_compute. repeat split; reflexivity. Qed.
+
+Example ex_groups_ok :
+  groups_ok 2 cfg_ex (part_groups 2 [[ex_b1]; [ex_b2; ex_b3]]) = true /\
+  chunks_ok 2 cfg_ex (rclk0 cfg_ex) (group_events (part_groups 2 [[ex_b1]; [ex_b2; ex_b3]])) = true.
+Proof. vm_compute. split; reflexivity. Qed.
+
+(* the bars handed to the calls start with their signature message, as the Bar constructor builds them *)
+Example ex_bar_shape :
+  join 2 [ex_b2; ex_b3] =
+  [ [mk_ts 0 4 4 0 false; xw 96; mk_ts 0 3 4 0 false; xw 24; xon 60 100; xw 36; xoff 60; xw 12];
+    [mk_ts 0 4 4 0 false; xon 62 80; xw 12; xoff 62; xw 84; mk_ts 0 3 4 0 false; xw 72] ].
+Proof. reflexivity. Qed.
+
+(* the threaded run differs from the single run as a token list (the second call re-announces 4/4) ... *)
+Example ex_tokens_differ :
+  match tokenise_many cfg_ex (tstate0 cfg_ex) (map (join 2) [[ex_b1]; [ex_b2; ex_b3]]),
+        tokenise cfg_ex (tstate0 cfg_ex) (join 2 [ex_b1; ex_b2; ex_b3]) with
+  | Ok (t1, s1), Ok (t2, s2) => (length t1, length t2, t_time s1, t_time s2)
+  | _, _ => (O, O, 0, 0)
+  end = (25%nat, 24%nat, 264, 264).
+Proof. vm_compute. reflexivity. Qed.
+
+(* ... but the notes and the bar ends it stands for are the same *)
+Example ex_piece_content :
+  bars_notes cfg_ex 1 0 [ex_b1; ex_b2; ex_b3] = [(61, 48, 84, 50); (62, 96, 108, 80)] /\
+  bar_ends cfg_ex 0 (sigs_of [ex_b1; ex_b2; ex_b3]) = [96; 192; 264].
+Proof. vm_compute. split; reflexivity. Qed.
+
+(* the open-end hypothesis is needed by the core-level notion of chunk: when a track of a group ends on a NOTE_OFF,
+   the front end writes no INTERNAL cap, so the group's events do not reach its end *)
+Example ex_closed_end_no_cap :
+  let b := (4, 4, [[xon 60 100; xw 24; xoff 60; xw 72]; [xw 60; xon 61 50; xw 36; xoff 61]]) in
+  open_bar cfg_ex b = false /\
+  match tok_frontend (join 2 [b]) with Ok evs => map (fun e => (m_type (ev_msg e), ev_time e)) evs | Err _ => [] end
+  = [(TIME_SIGNATURE, 0); (NOTE_ON, 0); (NOTE_ON, 60)].
+Proof. vm_compute. split; reflexivity. Qed.
